@@ -182,4 +182,33 @@ def isAbsolutePathname (input : Bytes) (url : Bool) : Bool :=
   else if input.length < 2 then false
   else input[1]? == some 0x2F && (input[0]? == some 0x5C || input[0]? == some 0x7B)
 
+/-! ### `url_pattern_init::process_*` (src/url_pattern.cpp): the per-component step of "process a URLPatternInit";
+`pattern` = "type is pattern" -/
+
+def processProtocol (idna : Spec.Idna) (L : Nat) (value : Bytes) (pattern : Bool) : Option Bytes :=
+  let stripped := if value.getLast? == some 0x3A then value.dropLast else value
+  if pattern then some stripped else canonicalizeProtocol idna L stripped
+
+def processUsername (value : Bytes) (pattern : Bool) : Bytes := if pattern then value else canonicalizeUsername value
+def processPassword (value : Bytes) (pattern : Bool) : Bytes := if pattern then value else canonicalizePassword value
+
+def processHostname (idna : Spec.Idna) (L : Nat) (value : Bytes) (pattern : Bool) : Option Bytes :=
+  if pattern then some value else canonicalizeHostname idna L value
+
+def processPort (port protocol : Bytes) (pattern : Bool) : Option Bytes :=
+  if pattern then some port else canonicalizePortWithProtocol port protocol
+
+def processPathname (L : Nat) (value protocol : Bytes) (pattern : Bool) : Option Bytes :=
+  if pattern then some value
+  else if protocol.isEmpty || Model.isSpecial protocol then canonicalizePathname L value
+  else some (canonicalizeOpaquePathname value)
+
+def processSearch (value : Bytes) (pattern : Bool) : Bytes :=
+  let stripped := match value with | 0x3F :: r => r | _ => value
+  if pattern then stripped else canonicalizeSearch stripped
+
+def processHash (value : Bytes) (pattern : Bool) : Bytes :=
+  let stripped := match value with | 0x23 :: r => r | _ => value
+  if pattern then stripped else canonicalizeHash stripped
+
 end AdaVerif.Model.PatternCanon
